@@ -1366,15 +1366,25 @@ impl DhtCoreEngine {
         self.close_group_validator.clone()
     }
 
+    /// IP address named by a node's address string: "ip:port", a bare IP, or the
+    /// library's own rendering "ip:port (four-words)" as produced on the connect path.
+    fn admission_ip(address: &str) -> Option<IpAddr> {
+        if let Ok(socket) = address.parse::<SocketAddr>() {
+            return Some(socket.ip());
+        }
+        if let Ok(ip) = address.parse::<IpAddr>() {
+            return Some(ip);
+        }
+        address
+            .parse::<crate::address::NetworkAddress>()
+            .ok()
+            .map(|a| a.ip())
+    }
+
     /// Return the IP-diversity and region slots held for `address` (the inverse of
     /// the increments `add_node` makes for an address it can parse).
     async fn release_admission_slots(&self, address: &str) {
-        let ip_addr: Option<IpAddr> = if let Ok(socket) = address.parse::<SocketAddr>() {
-            Some(socket.ip())
-        } else {
-            address.parse::<IpAddr>().ok()
-        };
-        let Some(ip) = ip_addr else {
+        let Some(ip) = Self::admission_ip(address) else {
             return;
         };
         self.release_ip_slots(ip).await;
@@ -1421,12 +1431,7 @@ impl DhtCoreEngine {
         // 2. Security Check: IP Diversity (both IPv4 and IPv6)
         {
             // Parse IP address from node.address string
-            // address comes as "ip:port" or just "ip"
-            let ip_addr: Option<IpAddr> = if let Ok(socket) = node.address.parse::<SocketAddr>() {
-                Some(socket.ip())
-            } else {
-                node.address.parse::<IpAddr>().ok()
-            };
+            let ip_addr: Option<IpAddr> = Self::admission_ip(&node.address);
 
             if let Some(ip) = ip_addr {
                 let mut enforcer = self.ip_diversity_enforcer.write().await;
@@ -1458,11 +1463,7 @@ impl DhtCoreEngine {
         // 3. Security Check: Geographic Diversity
         {
             // Parse IP address from node.address string (reuse parsed IP from above)
-            let ip_addr: Option<IpAddr> = if let Ok(socket) = node.address.parse::<SocketAddr>() {
-                Some(socket.ip())
-            } else {
-                node.address.parse::<IpAddr>().ok()
-            };
+            let ip_addr: Option<IpAddr> = Self::admission_ip(&node.address);
 
             if let Some(ip) = ip_addr {
                 let region = GeographicRegion::from_ip(ip);
